@@ -9,6 +9,12 @@ fn main() {
     if args[0] == "serve" {
         fvh::sut::serve_main(&args[1..]);
     }
+    if args[0] == "c20-worker" {
+        fvh::childworker::serve(fvh::props::c20::totality_case);
+    }
+    if args[0] == "c20-nest" {
+        fvh::props::c20::nest_child(args[1].parse().unwrap_or(1000));
+    }
     let id = args[0].clone();
     let mut tier = match std::env::var("VERIF_TIER").ok().as_deref() {
         Some("thorough") => Tier::Thorough,
